@@ -1013,6 +1013,35 @@ func (e *Engine) opRes(c *cursor) *Violation {
 		e.St.Skipped++
 		return nil
 	}
+	if len(e.S.ResIDs) > 32 && c.n(12) == 0 {
+		// fill: add every absent resource, so that all slots are occupied at once
+		for i := range e.S.ResIDs {
+			if e.M.Res[i] == nil {
+				e.valSeq++
+				fop := &COp{Kind: "res", Variant: "Add", Res: i, K: int(e.valSeq), Rel: -1}
+				res, ok, v := e.issue(fop, "")
+				if v != nil {
+					if v.Class == "unexpected-panic" {
+						v.Class = "resource"
+					}
+					return v
+				}
+				if ok {
+					e.M.Res[i] = res.Any
+					e.S.ResVals[i] = res.Any
+					for _, sh := range e.Shadows {
+						if sh.Kind == "fresh" {
+							sh.S.ResVals[i] = e.lastShadow[sh].Any
+						}
+					}
+				}
+			}
+		}
+		e.St.Probes["all-resource-slots-occupied"]++
+		return nil
+	} else {
+		c.n(1)
+	}
 	op := &COp{Kind: "res", Rel: -1}
 	op.Res = c.n(len(e.S.ResIDs))
 	present := e.M.Res[op.Res] != nil
